@@ -27,6 +27,9 @@ impl BoolTarget {
 #[derive(Clone, Copy)]
 pub struct HashOutTarget { pub elements: [Target; 4] }
 
+/// left folds of add / mul over the values of a target sequence (what add_many / mul_many constrain)
+pub open spec fn fsum_targets(ts: Seq<Target>) -> int decreases ts.len() { if ts.len() == 0 { 0 } else { fadd(fsum_targets(ts.drop_last()), val(ts.last())) } }
+pub open spec fn fprod_targets(ts: Seq<Target>) -> int decreases ts.len() { if ts.len() == 0 { 1 } else { fmul(fprod_targets(ts.drop_last()), val(ts.last())) } }
 pub open spec fn vals(s: Seq<Target>) -> Seq<int> { Seq::new(s.len(), |i: int| val(s[i])) }
 pub open spec fn bvals(s: Seq<BoolTarget>) -> Seq<int> { Seq::new(s.len(), |i: int| val(s[i].target)) }
 pub open spec fn hvals(h: HashOutTarget) -> Seq<int> { vals(h.elements@) }
@@ -144,6 +147,18 @@ impl<F: RichField + Extendable<D>, const D: usize> CircuitBuilder<F, D> {
     pub fn add(&mut self, a: Target, b: Target) -> (r: Target)
         ensures bframe(old(self), final(self)), bext(old(self), final(self)),
                 final(self).sat() ==> val(r) == fadd(val(a), val(b)),
+    { unimplemented!() }
+    /// gadgets/arithmetic.rs:200 `terms.fold(zero, |acc, t| add(acc, t))` (rule N4c passes the iterated sequence)
+    #[verifier::external_body]
+    pub fn add_many(&mut self, terms: &[Target]) -> (r: Target)
+        ensures bframe(old(self), final(self)), bext(old(self), final(self)),
+                final(self).sat() ==> val(r) == fsum_targets(terms@),
+    { unimplemented!() }
+    /// gadgets/arithmetic.rs:223 `terms.fold(one, |acc, t| mul(acc, t))`
+    #[verifier::external_body]
+    pub fn mul_many(&mut self, terms: &[Target]) -> (r: Target)
+        ensures bframe(old(self), final(self)), bext(old(self), final(self)),
+                final(self).sat() ==> val(r) == fprod_targets(terms@),
     { unimplemented!() }
     #[verifier::external_body]
     pub fn sub(&mut self, a: Target, b: Target) -> (r: Target)
